@@ -406,43 +406,66 @@ func ruleC10R2(w *World, r *Report) {
 			if neg {
 				strict = b.Succs[0]
 			}
-			// walk straight-line from the strict side to a raise
+			// every path from the strict side reaches a raise (a panic or a call that does not return) without a store
+			// to memory, a cursor advance or a return on the way; a branch on the way (which of two messages to raise)
+			// is fine when each of its sides raises
 			okRaise, why := false, ""
-			blk := strict
-			for steps := 0; steps < 6 && blk != nil && why == ""; steps++ {
+			onPath := map[*ssa.BasicBlock]bool{}
+			var visit func(blk *ssa.BasicBlock, depth int) bool
+			visit = func(blk *ssa.BasicBlock, depth int) bool {
+				if depth > 12 || onPath[blk] {
+					if why == "" {
+						why = "runs into a loop before raising"
+					}
+					return false
+				}
+				onPath[blk] = true
+				defer func() { onPath[blk] = false }()
 				dead := w.deadAt(blk)
 				for i, in := range blk.Instrs {
 					if dead >= 0 && i == dead {
-						okRaise = true
-						break
+						return true
 					}
 					switch x := in.(type) {
 					case *ssa.Panic:
-						okRaise = true
+						return true
+					case *ssa.Return:
+						if why == "" {
+							why = "can return without raising (" + w.pos(lastPos(blk)) + ")"
+						}
+						return false
 					case *ssa.Store:
 						if _, isLocal := x.Addr.(*ssa.Alloc); !isLocal {
 							if ia, isIA := x.Addr.(*ssa.IndexAddr); !isIA || localRoot(ia) == nil {
-								why = "stores to memory before raising (" + w.pos(x.Pos()) + ")"
+								if why == "" {
+									why = "stores to memory before raising (" + w.pos(x.Pos()) + ")"
+								}
+								return false
 							}
 						}
 					case ssa.CallInstruction:
 						if w.isAdvancingCall(in) {
-							why = "advances the cursor before raising"
+							if why == "" {
+								why = "advances the cursor before raising"
+							}
+							return false
 						}
 					}
-					if okRaise {
-						break
+				}
+				if len(blk.Succs) == 0 {
+					if why == "" {
+						why = "does not raise"
+					}
+					return false
+				}
+				for _, s := range blk.Succs {
+					if !visit(s, depth+1) {
+						return false
 					}
 				}
-				if okRaise || why != "" {
-					break
-				}
-				if len(blk.Succs) != 1 {
-					why = "does not lead straight to a raise"
-					break
-				}
-				blk = blk.Succs[0]
+				return true
 			}
+			okRaise = visit(strict, 0)
 			if okRaise && why == "" {
 				r.ok(rule, construct, w.pos(lastPos(b)), "the strict side only raises")
 			} else {
